@@ -106,6 +106,26 @@ def removeFilteredReturnsEffects (l : List Rule) (idx : Nat) (vals : List String
   if vals.isEmpty then .ok (l, [])
   else (partitionFiltered idx vals l).map fun (yes, no) => (no, yes)
 
+/-- the in-memory half of `_update_filtered_policies`, given the old rules the adapter (or the in-memory filter)
+    reported: `remove_policies(old)`, then `add_policies(new)` whose result is ignored, result
+    `removed and len(new_rules) != 0` -/
+def updateFilteredWith (l old news : List Rule) : List Rule × Bool :=
+  if old.isEmpty then (l, false)
+  else
+    let (l1, b1) := removeMany l old
+    let (l2, _) := addMany none l1 news
+    (l2, b1 && !news.isEmpty)
+
+/-- the guard of the repaired `_update_filtered_policies` (F16): nothing selected, nothing to put in its place, or a
+    new rule already held outside the selection - refuse before the adapter or the model is touched -/
+def updateFilteredRefused (l old news : List Rule) : Bool :=
+  old.isEmpty || news.isEmpty || news.any fun r => (l.filter fun x => !old.contains x).contains r
+
+/-- `_update_filtered_policies` without an adapter: the old rules are those the filter selects in memory -/
+def updateFiltered (l news : List Rule) (idx : Nat) (vals : List String) : Except PErr (List Rule × Bool) :=
+  (getFiltered l idx vals).map fun old =>
+    if updateFilteredRefused l old news then (l, false) else updateFilteredWith l old news
+
 /-- `update_policy` (repaired): `prioTok` = index of the token `p_priority` when the assertion has one -/
 def update (prioTok : Option Nat) (l : List Rule) (old new : Rule) : Except PErr (List Rule × Bool) :=
   if !l.contains old then .ok (l, false)
@@ -185,6 +205,14 @@ def getFiltered (l : List Rule) (idx : Nat) (vals : List String) : List Rule :=
 
 def removeFiltered (l : List Rule) (idx : Nat) (vals : List String) : List Rule × Bool :=
   (l.filter (fun r => !matchesFilter idx vals r), l.any (matchesFilter idx vals))
+
+/-- a filtered update replaces the selected rules by the new ones (each once), or changes nothing: it applies when the
+    filter selects something, there is something to put in its place, and no new rule is already held outside the
+    selection -/
+def updateFiltered (l news : List Rule) (idx : Nat) (vals : List String) : List Rule × Bool :=
+  let rest := l.filter fun r => !matchesFilter idx vals r
+  if (l.any (matchesFilter idx vals)) && !news.isEmpty && news.all (fun r => !rest.contains r) then (rest ++ news.eraseDups, true)
+  else (l, false)
 
 /-- update of a present rule to an absent one replaces it in place -/
 def update (l : List Rule) (old new : Rule) : List Rule × Bool :=
